@@ -13,7 +13,7 @@ DECIDES = ('in-place discipline of translate / rotate / scale / transpose / flip
            'each rotate_* a matrix that is orthogonal with determinant +1 and fixes its axis as a polynomial identity modulo cos^2 + sin^2 = 1, '
            'sandwiched between a translation by -origin and its exact negation (AL1-AL3); the rotation origin is evaluated once, on the first element and outside the loop over the elements (OR1.single-origin), at the start of the '
            'domain of *every* direction (OR1); both class hierarchies implement the iteration protocol that lets the transforms treat shapes '
-           'and containers alike: __iter__ rewinds and returns self, __next__ yields each element once then stops (IT1).')
+           'and containers alike: __iter__ rewinds and returns self, __next__ yields each element once then stops (IT1). after an in-place transform no cached evaluated point survives (IV1 restricted to the evaluated points cache, entries include operations.* with inplace=True).')
 NOT_DECIDED = 'affine invariance of B-spline/NURBS evaluation itself (mathematics, trusted) and equality of evaluated points (needs C01); floating-point rounding of cos/sin.'
 TECHNIQUE = 'alias/mutation analysis with branch pruning on the inplace flag; per-point map extraction; polynomial identities modulo cos^2+sin^2=1'
 
@@ -49,6 +49,8 @@ def check(m, run):
     views(m, run)
     maps(m, run)
     origin(m, run)
+    from .. import rules_state as rs
+    rs.iv1(m, run, rs.GEOM, caches_filter=lambda c: c == '_eval_points')
     iteration(m, run)
     # rational setters used by the transforms pass sizes in axis order (shared with C09)
     fs = []
